@@ -1262,9 +1262,34 @@ def run_late_targets(sim, ops):
         # pass 1: only the dyndep file's producer and the sources that the late validations alone read are dirty, so the
         #         bound statement and the producers of its added inputs stay clean while a validation has work to do
         # pass 2: the producer and everything the file adds are dirty
-        for pass_ in (1, 2):
+        # pass 3: as pass 2, and a generated order-only input that stands *before* the dyndep file in the statement's input list
+        #         is dirty too and finishes first (the second running command completes first): the statement's inputs have
+        #         been looked at once, up to the file, before the file inserts new inputs in front of the order-only ones
+        for pass_ in (1, 2, 3):
             if sim.stop or any(not f['known'] for f in sim.findings):
                 return
+            sched_ = []
+            if pass_ == 3:
+                if not late:
+                    continue
+                prod_ = producer_map(g)
+                idx_ = g['edges'].index(e)
+                gen_oo = [o for o in e['oo'] if prod_.get(o) is not None and not prod_[o]['phony'] and o != e['dd']]
+                if not gen_oo:
+                    taken = set(e['exp'] + e['imp'] + e['oo'] + list(e.get('hidden', [])) + models.dd_inputs(g, e))
+                    cand_ = [x['outs'][0] for x in g['edges'][:idx_] if not x['phony'] and not x.get('is_dd_producer') and x['outs'][0] not in taken
+                             and x not in late and any(i in g['srcs'] for i in x['exp'] + x['imp'])]
+                    if not cand_:
+                        continue
+                    e['oo'] = [cand_[0]] + list(e['oo'])
+                    gen_oo = [cand_[0]]
+                for o in gen_oo:
+                    px = prod_[o]
+                    ss = [i for i in px['exp'] + px['imp'] if i in g['srcs']]
+                    if ss:
+                        sim.write(ss[0], sim.new_content(ss[0], 9 + n))
+                sched_ = [1, 1, 1, 1, 1, 1, 1, 1]
+                sim.labels.add('late_order_only_input_before_dyndep_file_finishes_first')
             for x in g['edges']:
                 if x.get('is_dd_producer') and key(x) == e['dd']:
                     sim.write(x['exp'][0], sim.new_content(x['exp'][0], 7 + 2 * n + pass_))
@@ -1272,7 +1297,7 @@ def run_late_targets(sim, ops):
             todo_ = late_vals if pass_ == 1 else late + late_vals
             touched = False
             for x in todo_:
-                srcs_ = [i for i in x['exp'] + x['imp'] if i in g['srcs'] and (pass_ == 2 or i not in others)]
+                srcs_ = [i for i in x['exp'] + x['imp'] if i in g['srcs'] and (pass_ >= 2 or i not in others)]
                 if srcs_:
                     sim.write(srcs_[0], sim.new_content(srcs_[0], 8 + 2 * n + pass_))
                     touched = True
@@ -1291,7 +1316,7 @@ def run_late_targets(sim, ops):
                 if pass_ == 1:
                     sim.labels.add('late_validation_dirty_consumer_clean')
             n += 1
-            sim.build(dict(op='build', sel=0, j=1 + n % 2, k=1, sched=[], mid=[], targets=[key(e)]))
+            sim.build(dict(op='build', sel=0, j=(2 + n % 2) if pass_ == 3 else (1 + n % 2), k=1, sched=sched_, mid=[], targets=[key(e)]))
 
 
 # ---------------------------------------------------------------------------------------------- C07 crash / interrupt
